@@ -151,7 +151,42 @@ func (ev *c23Eval) block(stmts []ast.Stmt, env map[types.Object]c23Val) (int64, 
 			if v, ok := ev.constInt(s.Results[0]); ok {
 				return v, true, ""
 			}
-			// transparent delegation: return f(v.Field) — cannot be followed on abstract values
+			// delegation to another table function: return g(v.Op) / return g(op, right)
+			if call, ok := core.Unparen(s.Results[0]).(*ast.CallExpr); ok {
+				if cf := ev.f.CalleeFunc(call); cf != nil && cf.Lit == nil {
+					ps := c23Params(cf)
+					if len(ps) == len(call.Args) {
+						args := map[types.Object]c23Val{}
+						okArgs := true
+						for i, a := range call.Args {
+							a = core.Unparen(a)
+							if bv, ok := constBool(info, a); ok {
+								args[ps[i]] = c23Val{isBool: true, b: bv}
+							} else if iv, ok := ev.constInt(a); ok {
+								args[ps[i]] = c23Val{op: iv}
+							} else if v, known := env[identObj(info, a)]; known {
+								args[ps[i]] = v
+							} else if sel, ok := a.(*ast.SelectorExpr); ok && sel.Sel.Name == "Op" {
+								if v, known := env[identObj(info, sel.X)]; known && v.isNode && v.hasOp {
+									args[ps[i]] = c23Val{op: v.op}
+								} else {
+									okArgs = false
+								}
+							} else {
+								okArgs = false
+							}
+						}
+						if okArgs {
+							sub := &c23Eval{f: cf, depth: ev.depth + 1}
+							r, ret, why := sub.call(args)
+							if !ret && why == "" {
+								why = "no return reached in " + cf.Key
+							}
+							return r, ret, why
+						}
+					}
+				}
+			}
 			return 0, false, "return of a non-constant: " + exprStr(s.Results[0])
 		case *ast.IfStmt:
 			if s.Init != nil {
@@ -209,8 +244,7 @@ func (ev *c23Eval) block(stmts []ast.Stmt, env map[types.Object]c23Val) (int64, 
 					deflt = cc
 				}
 				for _, e := range cc.List {
-					t := exprStr(e)
-					if t == "*ast."+v.typ {
+					if c23AstType(info, e) == v.typ {
 						chosen = cc
 					}
 				}
@@ -275,6 +309,278 @@ func (ev *c23Eval) block(stmts []ast.Stmt, env map[types.Object]c23Val) (int64, 
 	return 0, false, ""
 }
 
+// c23Clause is the printer's code for one node type: the case clause of
+// VisitBefore's type switch together with the bodies of the helpers that the
+// clause hands the node to (`case *ast.VarDecl: u.unparseVarDecl(v)`), so that a
+// clause extracted into a method is read exactly like an inline one.
+type c23Clause struct {
+	cc     *ast.CaseClause
+	typ    string
+	vars   map[types.Object]bool        // the clause variable and every helper parameter bound to it
+	opVars map[types.Object]bool        // helper parameters bound to <node>.Op
+	stmts  []ast.Stmt                   // clause body, then the bodies of the helpers
+	calls  map[*ast.CallExpr]*core.Func // calls that hand the node to a helper
+}
+
+// c23Ctx carries what the rules share.
+type c23Ctx struct {
+	c       *core.Check
+	up      *core.Func
+	info    *types.Info
+	defs    map[types.Object][]ast.Expr // definitions of locals in the parser package (nil entry = not a plain expression)
+	clauses map[string]*c23Clause
+}
+
+// c23AstType names the ast node type a case expression `*ast.T` (under any import name) denotes.
+func c23AstType(info *types.Info, e ast.Expr) string {
+	t := info.TypeOf(e)
+	if t == nil {
+		return ""
+	}
+	if p, ok := t.(*types.Pointer); ok {
+		t = p.Elem()
+	}
+	n, ok := t.(*types.Named)
+	if !ok || n.Obj().Pkg() == nil || !strings.HasSuffix(n.Obj().Pkg().Path(), "/compiler/ast") {
+		return ""
+	}
+	return n.Obj().Name()
+}
+
+// c23ConstName names the constant a case expression denotes (LT, parser.LT, (LT)).
+func c23ConstName(info *types.Info, e ast.Expr) string {
+	switch x := core.Unparen(e).(type) {
+	case *ast.Ident:
+		if k, ok := info.Uses[x].(*types.Const); ok {
+			return k.Name()
+		}
+	case *ast.SelectorExpr:
+		if k, ok := info.Uses[x.Sel].(*types.Const); ok {
+			return k.Name()
+		}
+	}
+	return exprStr(e)
+}
+
+// c23Defs indexes, for every local variable of the functions given, the
+// expressions it is assigned from.
+func c23Defs(fs []*core.Func) map[types.Object][]ast.Expr {
+	defs := map[types.Object][]ast.Expr{}
+	for _, f := range fs {
+		info := f.Info()
+		ast.Inspect(f.Body, func(n ast.Node) bool {
+			switch x := n.(type) {
+			case *ast.AssignStmt:
+				for i, l := range x.Lhs {
+					o := identObj(info, l)
+					if o == nil {
+						continue
+					}
+					if len(x.Lhs) == len(x.Rhs) && (x.Tok == token.DEFINE || x.Tok == token.ASSIGN) {
+						defs[o] = append(defs[o], x.Rhs[i])
+					} else {
+						defs[o] = append(defs[o], nil)
+					}
+				}
+			case *ast.ValueSpec:
+				for i, nm := range x.Names {
+					if o := info.Defs[nm]; o != nil && len(x.Values) == len(x.Names) {
+						defs[o] = append(defs[o], x.Values[i])
+					} else if o != nil && len(x.Values) > 0 {
+						defs[o] = append(defs[o], nil)
+					}
+				}
+			case *ast.IncDecStmt:
+				if o := identObj(info, x.X); o != nil {
+					defs[o] = append(defs[o], nil)
+				}
+			case *ast.RangeStmt:
+				for _, l := range []ast.Expr{x.Key, x.Value} {
+					if l != nil {
+						if o := identObj(info, l); o != nil {
+							defs[o] = append(defs[o], nil)
+						}
+					}
+				}
+			case *ast.UnaryExpr:
+				if x.Op == token.AND {
+					if o := identObj(info, x.X); o != nil {
+						defs[o] = append(defs[o], nil)
+					}
+				}
+			}
+			return true
+		})
+	}
+	return defs
+}
+
+// deref replaces a local variable that is assigned exactly once, from a plain
+// expression, by that expression (`op := v.Op; switch op` reads like `switch v.Op`).
+func (x *c23Ctx) deref(e ast.Expr) ast.Expr {
+	for i := 0; i < 4; i++ {
+		id, ok := core.Unparen(e).(*ast.Ident)
+		if !ok {
+			break
+		}
+		v, ok := x.info.Uses[id].(*types.Var)
+		if !ok || v.IsField() {
+			break
+		}
+		d := x.defs[v]
+		if len(d) != 1 || d[0] == nil {
+			break
+		}
+		e = d[0]
+	}
+	return core.Unparen(e)
+}
+
+// nodeField reports whether e (after deref) is <node>.<name> for a node variable of the clause.
+func (x *c23Ctx) nodeField(cl *c23Clause, e ast.Expr, name string) bool {
+	sel, ok := x.deref(e).(*ast.SelectorExpr)
+	if !ok || sel.Sel.Name != name {
+		return false
+	}
+	if s := x.info.Selections[sel]; s == nil || s.Kind() != types.FieldVal {
+		return false
+	}
+	return cl.vars[identObj(x.info, x.deref(sel.X))]
+}
+
+// isOp reports whether e denotes the operator of the clause's node: <node>.Op, a local copy of it, or a helper parameter bound to it.
+func (x *c23Ctx) isOp(cl *c23Clause, e ast.Expr) bool {
+	if x.nodeField(cl, e, "Op") {
+		return true
+	}
+	return cl.opVars[identObj(x.info, x.deref(e))]
+}
+
+// constStr evaluates e as a string constant.
+func (x *c23Ctx) constStr(e ast.Expr) (string, bool) {
+	tv, ok := x.info.Types[e]
+	if !ok || tv.Value == nil || tv.Value.Kind() != constant.String {
+		return "", false
+	}
+	return constant.StringVal(tv.Value), true
+}
+
+// opSwitch describes a switch over the node's operator whose cases spell operators: per case the token names and the string constants emitted or returned.
+type c23OpCase struct {
+	cc   *ast.CaseClause
+	toks []string
+	lits []string
+}
+
+// opSwitches finds, in the clause, the switches over the operator.  textOnly keeps those in which some case emits or returns a string constant.
+func (x *c23Ctx) opSwitches(cl *c23Clause, textOnly bool) [][]c23OpCase {
+	var out [][]c23OpCase
+	for _, st := range cl.stmts {
+		ast.Inspect(st, func(n ast.Node) bool {
+			sw, ok := n.(*ast.SwitchStmt)
+			if !ok || sw.Tag == nil || !x.isOp(cl, sw.Tag) {
+				return true
+			}
+			var cases []c23OpCase
+			any := false
+			for _, cc0 := range sw.Body.List {
+				cc := cc0.(*ast.CaseClause)
+				oc := c23OpCase{cc: cc}
+				for _, e := range cc.List {
+					oc.toks = append(oc.toks, c23ConstName(x.info, e))
+				}
+				for _, bst := range cc.Body {
+					ast.Inspect(bst, func(m ast.Node) bool {
+						switch y := m.(type) {
+						case *ast.CallExpr:
+							if strings.HasSuffix(x.up.CalleeID(y), "(*Unparser).emit") && len(y.Args) == 1 {
+								if sv, ok := x.constStr(y.Args[0]); ok {
+									oc.lits = append(oc.lits, strings.TrimSpace(sv))
+								}
+							}
+						case *ast.ReturnStmt:
+							if len(y.Results) == 1 {
+								if sv, ok := x.constStr(y.Results[0]); ok {
+									oc.lits = append(oc.lits, strings.TrimSpace(sv))
+								}
+							}
+						}
+						return true
+					})
+				}
+				if len(oc.lits) > 0 && len(oc.toks) > 0 {
+					any = true
+				}
+				cases = append(cases, oc)
+			}
+			if any || !textOnly {
+				out = append(out, cases)
+			}
+			return false
+		})
+	}
+	return out
+}
+
+// buildClause collects the clause body and the helpers it hands the node (or the node's operator) to.
+func (x *c23Ctx) buildClause(cc *ast.CaseClause, typ string) *c23Clause {
+	cl := &c23Clause{cc: cc, typ: typ, vars: map[types.Object]bool{}, opVars: map[types.Object]bool{}, calls: map[*ast.CallExpr]*core.Func{}}
+	if v := x.info.Implicits[cc]; v != nil {
+		cl.vars[v] = true
+	}
+	cl.stmts = append(cl.stmts, cc.Body...)
+	seen := map[*core.Func]bool{x.up: true}
+	for i, depth := 0, 0; i < len(cl.stmts) && depth < 64; i++ {
+		ast.Inspect(cl.stmts[i], func(n ast.Node) bool {
+			call, ok := n.(*ast.CallExpr)
+			if !ok {
+				return true
+			}
+			hf := x.up.CalleeFunc(call)
+			if hf == nil || hf.Lit != nil || core.Rel(hf.Pkg.PkgPath) != parserPkg {
+				return true
+			}
+			ps := c23Params(hf)
+			if len(ps) != len(call.Args) {
+				return true
+			}
+			hands, handsOp := false, false
+			for j, a := range call.Args {
+				switch {
+				case cl.vars[identObj(x.info, x.deref(a))]:
+					cl.vars[ps[j]] = true
+					hands = true
+				case x.isOp(cl, a):
+					cl.opVars[ps[j]] = true
+					handsOp = true
+				}
+			}
+			if hands {
+				cl.calls[call] = hf
+			}
+			if seen[hf] {
+				return true
+			}
+			if hands {
+				seen[hf] = true
+				cl.stmts = append(cl.stmts, hf.Body.List...)
+				x.c.Analysed(hf)
+			} else if handsOp {
+				// an operator-spelling table function: a switch over the parameter whose cases return string constants
+				probe := &c23Clause{vars: map[types.Object]bool{}, opVars: cl.opVars, stmts: hf.Body.List}
+				if len(x.opSwitches(probe, true)) > 0 {
+					seen[hf] = true
+					cl.stmts = append(cl.stmts, hf.Body.List...)
+					x.c.Analysed(hf)
+				}
+			}
+			depth++
+			return true
+		})
+	}
+	return cl
+}
+
 func c23Params(f *core.Func) []types.Object {
 	var out []types.Object
 	for _, fl := range f.Type.Params.List {
@@ -304,9 +610,15 @@ func c23(c *core.Check) {
 		c.Undecided("C23-R1", "ast package", "-", "not loaded")
 		return
 	}
-	// printer clauses: type name -> case clause
-	clauses := map[string]*ast.CaseClause{}
-	var clauseVar = map[*ast.CaseClause]types.Object{}
+	// printer clauses: node type name -> clause (with the helpers the clause hands the node to)
+	var parserFuncs []*core.Func
+	for _, f := range shipped(c) {
+		if core.Rel(f.Pkg.PkgPath) == parserPkg {
+			parserFuncs = append(parserFuncs, f)
+		}
+	}
+	x := &c23Ctx{c: c, up: up, info: info, defs: c23Defs(parserFuncs), clauses: map[string]*c23Clause{}}
+	clauses := x.clauses
 	var mainSwitch *ast.TypeSwitchStmt
 	core.InspectNoLit(up.Body, func(n ast.Node) bool {
 		ts, ok := n.(*ast.TypeSwitchStmt)
@@ -317,9 +629,10 @@ func c23(c *core.Check) {
 		for _, cl := range ts.Body.List {
 			cc := cl.(*ast.CaseClause)
 			for _, e := range cc.List {
-				clauses[strings.TrimPrefix(exprStr(e), "*ast.")] = cc
+				if typ := c23AstType(info, e); typ != "" {
+					clauses[typ] = x.buildClause(cc, typ)
+				}
 			}
-			clauseVar[cc] = info.Implicits[cc]
 		}
 		return false
 	})
@@ -329,7 +642,7 @@ func c23(c *core.Check) {
 	}
 
 	// ---------------------------------------------------------------- R1
-	c.Rule("C23-R1", "FIELD-COVERAGE: for each (node type, field) that some grammar action sets from a non-constant value (token text, flag, sub-tree; positions excluded), the printer's clause for that type reads the field; each node type built by the grammar has a clause")
+	c.Rule("C23-R1", "FIELD-COVERAGE: for each (node type, field) that some grammar action sets from a non-constant value (token text, flag, sub-tree; positions excluded), the printer's clause for that type (its case body and the helpers it hands the node to) reads the field, passes the value of a non-flag field on (to a call, range, switch tag or local — a mere test such as `v.Limit > 0` or `len(v.Keys) > 0` prints nothing of it), and does not print it only under a condition on another field; each node type built by the grammar has a clause")
 	type setField struct{ typ, field, from string }
 	var sets []setField
 	structOf := func(name string) *types.Struct {
@@ -459,7 +772,7 @@ func c23(c *core.Check) {
 			continue
 		}
 		read := false
-		for _, st := range cl.Body {
+		for _, st := range cl.stmts {
 			ast.Inspect(st, func(n ast.Node) bool {
 				if sel, ok := n.(*ast.SelectorExpr); ok {
 					if s := info.Selections[sel]; s != nil && s.Obj() == fv {
@@ -469,15 +782,90 @@ func c23(c *core.Check) {
 				return !read
 			})
 		}
+		// a field that carries a value (anything but a flag) must flow somewhere: into a call (emit, Walk, a formatter,
+		// a helper), a range, a switch tag or a local — a mere test of it (`if v.Limit > 0`, `len(v.Keys) > 0`) prints nothing of it
+		if _, isFlag := fv.Type().Underlying().(*types.Basic); read && !(isFlag && fv.Type().Underlying().(*types.Basic).Kind() == types.Bool) {
+			flows := false
+			isFv := func(e ast.Expr) bool {
+				sel, ok := core.Unparen(e).(*ast.SelectorExpr)
+				if !ok {
+					return false
+				}
+				s := info.Selections[sel]
+				return s != nil && s.Obj() == fv
+			}
+			has := func(n ast.Node) bool {
+				hit := false
+				if n == nil {
+					return false
+				}
+				ast.Inspect(n, func(m ast.Node) bool {
+					if call, ok := m.(*ast.CallExpr); ok {
+						if id := up.CalleeID(call); id == "builtin.len" || id == "builtin.cap" {
+							return false // the size of the value is not the value
+						}
+					}
+					if e, ok := m.(ast.Expr); ok && isFv(e) {
+						hit = true
+					}
+					return !hit
+				})
+				return hit
+			}
+			for _, st := range cl.stmts {
+				ast.Inspect(st, func(n ast.Node) bool {
+					switch y := n.(type) {
+					case *ast.CallExpr:
+						if id := up.CalleeID(y); id == "builtin.len" || id == "builtin.cap" {
+							return false
+						}
+						for _, a := range y.Args {
+							if has(a) {
+								flows = true
+							}
+						}
+					case *ast.RangeStmt:
+						if has(y.X) {
+							flows = true
+						}
+					case *ast.SwitchStmt:
+						if y.Tag != nil && has(y.Tag) {
+							flows = true
+						}
+					case *ast.AssignStmt:
+						for _, r := range y.Rhs {
+							if has(r) {
+								flows = true
+							}
+						}
+					case *ast.ValueSpec:
+						for _, r := range y.Values {
+							if has(r) {
+								flows = true
+							}
+						}
+					case *ast.TypeAssertExpr:
+						if has(y.X) {
+							flows = true
+						}
+					}
+					return !flows
+				})
+			}
+			if !flows {
+				c.Fail("C23-R1", k, pos(c, cl.cc), fmt.Sprintf("the formatter's clause for %s only tests %s and never passes its value on to be printed: the value the grammar read from the source (production of %s) is missing from the formatted program", sf.typ, sf.field, sf.from))
+				continue
+			}
+		}
 		if read {
 			// the field's emission must not hinge on a condition over ANOTHER field of the node
-			v := clauseVar[cl]
 			var offending string
-			var visit func(n ast.Node, conds []ast.Expr)
+			var visit func(n ast.Node, conds []ast.Expr, depth int)
+			isNode := func(e ast.Expr) bool { return cl.vars[identObj(info, x.deref(e))] }
 			usesOther := func(cond ast.Expr) string {
 				other := ""
 				ast.Inspect(cond, func(m ast.Node) bool {
-					if sel, ok := m.(*ast.SelectorExpr); ok && identObj(info, sel.X) == v {
+					if sel, ok := m.(*ast.SelectorExpr); ok && isNode(sel.X) {
 						if s := info.Selections[sel]; s != nil && s.Kind() == types.FieldVal && s.Obj() != fv {
 							other = sel.Sel.Name
 						}
@@ -490,7 +878,7 @@ func c23(c *core.Check) {
 				hit := false
 				ast.Inspect(n, func(m ast.Node) bool {
 					if sel, ok := m.(*ast.SelectorExpr); ok {
-						if s := info.Selections[sel]; s != nil && s.Obj() == fv && identObj(info, sel.X) == v {
+						if s := info.Selections[sel]; s != nil && s.Obj() == fv && isNode(sel.X) {
 							hit = true
 						}
 					}
@@ -498,48 +886,60 @@ func c23(c *core.Check) {
 				})
 				return hit
 			}
-			visit = func(n ast.Node, conds []ast.Expr) {
-				switch x := n.(type) {
+			with := func(conds []ast.Expr, c ast.Expr) []ast.Expr {
+				return append(append([]ast.Expr{}, conds...), c)
+			}
+			visit = func(n ast.Node, conds []ast.Expr, depth int) {
+				switch y := n.(type) {
 				case *ast.IfStmt:
-					if mentions(x.Cond) {
-						// a test of the field itself is not an emission
+					visit(y.Body, with(conds, y.Cond), depth)
+					if y.Else != nil {
+						visit(y.Else, with(conds, y.Cond), depth)
 					}
-					visit(x.Body, append(append([]ast.Expr{}, conds...), x.Cond))
-					if x.Else != nil {
-						visit(x.Else, append(append([]ast.Expr{}, conds...), x.Cond))
-					}
-					return
 				case *ast.BlockStmt:
-					for _, st := range x.List {
-						visit(st, conds)
+					for _, st := range y.List {
+						visit(st, conds, depth)
 					}
-					return
 				case *ast.ExprStmt, *ast.AssignStmt:
-					if mentions(x) {
+					// the clause hands the node to a helper: the helper's body is printed under the same conditions
+					handed := false
+					ast.Inspect(y, func(m ast.Node) bool {
+						if call, ok := m.(*ast.CallExpr); ok {
+							if hf := cl.calls[call]; hf != nil && depth < 3 {
+								handed = true
+								visit(hf.Body, conds, depth+1)
+							}
+						}
+						return true
+					})
+					if !handed && mentions(y) {
 						for _, cd := range conds {
 							if o := usesOther(cd); o != "" && !mentions(cd) {
 								offending = o
 							}
 						}
 					}
-					return
 				case *ast.ForStmt:
-					visit(x.Body, conds)
-					return
+					visit(y.Body, conds, depth)
 				case *ast.RangeStmt:
-					visit(x.Body, conds)
-					return
+					visit(y.Body, conds, depth)
+				case *ast.SwitchStmt:
+					visit(y.Body, conds, depth)
+				case *ast.CaseClause:
+					for _, st := range y.Body {
+						visit(st, conds, depth)
+					}
 				}
 			}
-			for _, st := range cl.Body {
-				visit(st, nil)
+			for _, st := range cl.cc.Body {
+				visit(st, nil, 0)
 			}
 			if offending != "" {
-				c.Fail("C23-R1", k, pos(c, cl), fmt.Sprintf("the formatter prints %s.%s only under a condition on another field (%s): a declaration that has %s but not %s is formatted without it", sf.typ, sf.field, offending, sf.field, offending))
+				c.Fail("C23-R1", k, pos(c, cl.cc), fmt.Sprintf("the formatter prints %s.%s only under a condition on another field (%s): a declaration that has %s but not %s is formatted without it", sf.typ, sf.field, offending, sf.field, offending))
 				continue
 			}
 		}
-		c.Verdict(read, "C23-R1", k, pos(c, cl), "read by the clause", fmt.Sprintf("the formatter's clause for %s never reads %s, which the grammar fills from the source (production of %s): formatting silently drops it, so the formatted program declares or does something else", sf.typ, sf.field, sf.from))
+		c.Verdict(read, "C23-R1", k, pos(c, cl.cc), "read by the clause", fmt.Sprintf("the formatter's clause for %s never reads %s, which the grammar fills from the source (production of %s): formatting silently drops it, so the formatted program declares or does something else", sf.typ, sf.field, sf.from))
 	}
 	for typ, where := range builtTypes {
 		if clauses[typ] == nil {
@@ -555,62 +955,45 @@ func c23(c *core.Check) {
 	if why != "" {
 		c.Undecided("C23-R2", "grammar", g.Path, why)
 	} else {
-		c23Brackets(c, up, g, slots, kinds, clauses, clauseVar)
+		c23Brackets(x, g, slots, kinds)
 	}
 	c.Floor("C23-R2", 40)
 
 	// ---------------------------------------------------------------- R3
-	c23Literals(c, up, clauses, clauseVar)
+	c23Literals(x)
 	// ---------------------------------------------------------------- R4
-	c23Numbers(c, up, clauses, clauseVar)
+	c23Numbers(x)
 
 	// ---------------------------------------------------------------- R5
 	c.Rule("C23-R5", "SPELLING: for every operator case of the printer's BinaryExpr and UnaryExpr clauses, the string printed (spaces trimmed) is a spelling for which the lexer emits exactly that token")
 	trie := lexerTrie(lex)
 	n5 := 0
+	spelled := map[string]map[string]bool{} // node type -> operators that have a spelling case
 	for _, typ := range []string{"BinaryExpr", "UnaryExpr"} {
 		cl := clauses[typ]
 		if cl == nil {
 			continue
 		}
-		for _, st := range cl.Body {
-			ast.Inspect(st, func(n ast.Node) bool {
-				sw, ok := n.(*ast.SwitchStmt)
-				if !ok || sw.Tag == nil || !strings.HasSuffix(exprStr(sw.Tag), ".Op") {
-					return true
-				}
-				for _, cc0 := range sw.Body.List {
-					cc := cc0.(*ast.CaseClause)
-					for _, e := range cc.List {
-						tokName := exprStr(e)
-						var lits []string
-						for _, bst := range cc.Body {
-							ast.Inspect(bst, func(m ast.Node) bool {
-								if call, ok := m.(*ast.CallExpr); ok && strings.HasSuffix(up.CalleeID(call), "(*Unparser).emit") && len(call.Args) == 1 {
-									if tv, ok := info.Types[call.Args[0]]; ok && tv.Value != nil && tv.Value.Kind() == constant.String {
-										lits = append(lits, strings.TrimSpace(constant.StringVal(tv.Value)))
-									}
-								}
-								return true
-							})
-						}
-						if typ == "UnaryExpr" && tokName == "MATCH" {
-							continue // the bare pattern condition prints no operator
-						}
-						n5++
-						key := typ + " " + tokName
-						if len(lits) != 1 {
-							c.Undecided("C23-R5", key, pos(c, cc), fmt.Sprintf("%d constant spellings emitted in this case", len(lits)))
-							continue
-						}
-						got := trie[lits[0]]
-						okSp := len(got) == 1 && got[0] == tokName
-						// an operator never produced by the grammar for this node type cannot be misprinted
-						c.Verdict(okSp, "C23-R5", key, pos(c, cc), fmt.Sprintf("%q lexes to %v", lits[0], got), fmt.Sprintf("the formatter prints operator %s as %q, which the lexer reads as %v: the formatted program computes something else (or does not parse)", tokName, lits[0], got))
+		spelled[typ] = map[string]bool{}
+		for _, cases := range x.opSwitches(cl, true) {
+			for _, oc := range cases {
+				for _, tokName := range oc.toks {
+					spelled[typ][tokName] = true
+					if typ == "UnaryExpr" && tokName == "MATCH" {
+						continue // the bare pattern condition prints no operator
 					}
+					n5++
+					key := typ + " " + tokName
+					if len(oc.lits) != 1 {
+						c.Undecided("C23-R5", key, pos(c, oc.cc), fmt.Sprintf("%d constant spellings emitted in this case", len(oc.lits)))
+						continue
+					}
+					got := trie[oc.lits[0]]
+					okSp := len(got) == 1 && got[0] == tokName
+					// an operator never produced by the grammar for this node type cannot be misprinted
+					c.Verdict(okSp, "C23-R5", key, pos(c, oc.cc), fmt.Sprintf("%q lexes to %v", oc.lits[0], got), fmt.Sprintf("the formatter prints operator %s as %q, which the lexer reads as %v: the formatted program computes something else (or does not parse)", tokName, oc.lits[0], got))
 				}
-				return false
-			})
+			}
 		}
 	}
 	// every operator the grammar can put in a BinaryExpr/UnaryExpr has a case
@@ -619,28 +1002,19 @@ func c23(c *core.Check) {
 		if cl == nil {
 			continue
 		}
-		has := false
-		for _, st := range cl.Body {
-			ast.Inspect(st, func(n ast.Node) bool {
-				if cc, ok := n.(*ast.CaseClause); ok {
-					for _, e := range cc.List {
-						if exprStr(e) == sl.Op {
-							has = true
-						}
-					}
-				}
-				return !has
-			})
+		if len(spelled[sl.Node]) == 0 {
+			continue // no operator switch recognised at all: the floor reports it
 		}
-		if !has {
-			c.Fail("C23-R5", sl.Node+" "+sl.Op+" missing", pos(c, cl), "the grammar builds "+sl.Node+" with operator "+sl.Op+" but the formatter has no case for it: it prints `Unexpected op`")
+		if !spelled[sl.Node][sl.Op] {
+			c.Fail("C23-R5", sl.Node+" "+sl.Op+" missing", pos(c, cl.cc), "the grammar builds "+sl.Node+" with operator "+sl.Op+" but the formatter has no case for it: it prints `Unexpected op`")
 		}
 	}
 	c.Floor("C23-R5", 25)
 }
 
 // c23Brackets decides rule R2.
-func c23Brackets(c *core.Check, up *core.Func, g *yGrammar, slots []c23Slot, kinds []c23Kind, clauses map[string]*ast.CaseClause, clauseVar map[*ast.CaseClause]types.Object) {
+func c23Brackets(x *c23Ctx, g *yGrammar, slots []c23Slot, kinds []c23Kind) {
+	c, up, clauses := x.c, x.up, x.clauses
 	info := up.Info()
 	pkg := c.Prog.Pkgs[parserPkg]
 	tokVal := func(name string) (int64, bool) {
@@ -658,12 +1032,13 @@ func c23Brackets(c *core.Check, up *core.Func, g *yGrammar, slots []c23Slot, kin
 	}
 	// locate, in the Binary/Unary clauses, how each operand is printed
 	type operandSite struct {
-		node  string // BinaryExpr / UnaryExpr
-		field string // LHS, RHS, Expr
-		ops   []string
-		call  *ast.CallExpr
-		right *bool // literal side argument when printed through a helper
+		node   string // BinaryExpr / UnaryExpr
+		field  string // LHS, RHS, Expr
+		ops    []string
+		call   *ast.CallExpr
+		right  *bool // literal side argument when printed through a helper
 		helper *core.Func
+		argIdx int // position of the operand among the call's arguments
 	}
 	var sites []operandSite
 	for _, node := range []string{"BinaryExpr", "UnaryExpr"} {
@@ -672,16 +1047,15 @@ func c23Brackets(c *core.Check, up *core.Func, g *yGrammar, slots []c23Slot, kin
 			c.Fail("C23-R2", node+" clause", pos(c, up.Decl), "the formatter has no clause for "+node)
 			continue
 		}
-		v := clauseVar[cl]
 		var visit func(n ast.Node, ops []string)
 		visit = func(n ast.Node, ops []string) {
 			ast.Inspect(n, func(m ast.Node) bool {
-				if sw, ok := m.(*ast.SwitchStmt); ok && sw.Tag != nil && strings.HasSuffix(exprStr(sw.Tag), ".Op") {
+				if sw, ok := m.(*ast.SwitchStmt); ok && sw.Tag != nil && x.isOp(cl, sw.Tag) {
 					for _, cc0 := range sw.Body.List {
 						cc := cc0.(*ast.CaseClause)
 						var toks []string
 						for _, e := range cc.List {
-							toks = append(toks, exprStr(e))
+							toks = append(toks, c23ConstName(info, e))
 						}
 						for _, st := range cc.Body {
 							visit(st, toks)
@@ -693,14 +1067,15 @@ func c23Brackets(c *core.Check, up *core.Func, g *yGrammar, slots []c23Slot, kin
 				if !ok {
 					return true
 				}
-				// which operand field of v does this call print?
+				// which operand field of the node does this call print?
 				for i, a := range call.Args {
-					sel, ok := core.Unparen(a).(*ast.SelectorExpr)
-					if !ok || identObj(info, sel.X) != v {
-						continue
+					fld := ""
+					for _, f := range []string{"LHS", "RHS", "Expr"} {
+						if x.nodeField(cl, a, f) {
+							fld = f
+						}
 					}
-					fld := sel.Sel.Name
-					if fld != "LHS" && fld != "RHS" && fld != "Expr" {
+					if fld == "" {
 						continue
 					}
 					id := up.CalleeID(call)
@@ -709,6 +1084,7 @@ func c23Brackets(c *core.Check, up *core.Func, g *yGrammar, slots []c23Slot, kin
 						sites = append(sites, site)
 					} else if hf := up.CalleeFunc(call); hf != nil {
 						site.helper = hf
+						site.argIdx = i
 						for j, b := range call.Args {
 							if j != i {
 								if bv, ok := constBool(info, b); ok {
@@ -723,7 +1099,7 @@ func c23Brackets(c *core.Check, up *core.Func, g *yGrammar, slots []c23Slot, kin
 				return true
 			})
 		}
-		for _, st := range cl.Body {
+		for _, st := range cl.stmts {
 			visit(st, nil)
 		}
 	}
@@ -732,13 +1108,31 @@ func c23Brackets(c *core.Check, up *core.Func, g *yGrammar, slots []c23Slot, kin
 		return
 	}
 	// analyse a helper: returns a function deciding omit-brackets for (op token, right, child kind)
+	type extraTerm struct {
+		positive bool       // the term holds when the operand is (inside) a pattern
+		fld      *types.Var // the pattern-depth counter field, for a counter test; nil for a `is a PatternExpr` flag
+		text     string
+	}
 	type helperModel struct {
 		precFn, slotFn *core.Func
 		cmp            token.Token // precedence(child) CMP slot(op, right)  => omit brackets
-		extra          []string
-		bracketsAll    bool
+		nodeParam      int         // index of the helper parameter whose precedence is taken
+		opParam        int         // index of the helper parameter handed to the operand-precedence table as operator
+		sideParam      int         // index of the helper parameter handed to it as side, or -1
+		fixedSide      *bool       // the side is a constant inside the helper
+		extra          []extraTerm
+		unknown        []string
+		inverted       string
 		why            string
 	}
+	var parserFuncs []*core.Func
+	for _, f := range shipped(c) {
+		if core.Rel(f.Pkg.PkgPath) == parserPkg {
+			parserFuncs = append(parserFuncs, f)
+		}
+	}
+	flip := map[token.Token]token.Token{token.LSS: token.GEQ, token.GEQ: token.LSS, token.LEQ: token.GTR, token.GTR: token.LEQ, token.EQL: token.NEQ, token.NEQ: token.EQL}
+	mirror := map[token.Token]token.Token{token.LSS: token.GTR, token.GTR: token.LSS, token.LEQ: token.GEQ, token.GEQ: token.LEQ, token.EQL: token.EQL, token.NEQ: token.NEQ}
 	models := map[*core.Func]*helperModel{}
 	analyse := func(hf *core.Func) *helperModel {
 		if m, ok := models[hf]; ok {
@@ -751,9 +1145,9 @@ func c23Brackets(c *core.Check, up *core.Func, g *yGrammar, slots []c23Slot, kin
 		// find the statement that emits "(" ... ")" and the condition under which it is skipped
 		emitsParen := func(n ast.Node, s string) bool {
 			found := false
-			ast.Inspect(n, func(x ast.Node) bool {
-				if call, ok := x.(*ast.CallExpr); ok && strings.HasSuffix(hf.CalleeID(call), "(*Unparser).emit") && len(call.Args) == 1 {
-					if tv, ok := hinfo.Types[call.Args[0]]; ok && tv.Value != nil && tv.Value.Kind() == constant.String && constant.StringVal(tv.Value) == s {
+			ast.Inspect(n, func(y ast.Node) bool {
+				if call, ok := y.(*ast.CallExpr); ok && strings.HasSuffix(hf.CalleeID(call), "(*Unparser).emit") && len(call.Args) == 1 {
+					if sv, ok := x.constStr(x.deref(call.Args[0])); ok && sv == s {
 						found = true
 					}
 				}
@@ -773,12 +1167,16 @@ func c23Brackets(c *core.Check, up *core.Func, g *yGrammar, slots []c23Slot, kin
 				continue
 			}
 			thenParen := emitsParen(is.Body, "(")
-			if !thenParen && is.Else == nil {
+			elseParen := is.Else != nil && emitsParen(is.Else, "(")
+			switch {
+			case !thenParen && is.Else == nil:
 				// if cond { walk; return }  brackets after
 				cond, condOmits = is.Cond, true
-			} else if thenParen && is.Else != nil && !emitsParen(is.Else, "(") {
-				cond, condOmits = is.Cond, false
-			} else if thenParen && is.Else == nil {
+			case !thenParen && elseParen:
+				// if cond { walk } else { ( walk ) }
+				cond, condOmits = is.Cond, true
+			case thenParen && !elseParen:
+				// if cond { ( walk ) } [else { walk }]
 				cond, condOmits = is.Cond, false
 			}
 		}
@@ -790,125 +1188,339 @@ func c23Brackets(c *core.Check, up *core.Func, g *yGrammar, slots []c23Slot, kin
 		var terms []ast.Expr
 		var split func(e ast.Expr, op token.Token)
 		split = func(e ast.Expr, op token.Token) {
-			if be, ok := core.Unparen(e).(*ast.BinaryExpr); ok && be.Op == op {
+			e = x.deref(e)
+			if be, ok := e.(*ast.BinaryExpr); ok && be.Op == op {
 				split(be.X, op)
 				split(be.Y, op)
 				return
 			}
-			terms = append(terms, core.Unparen(e))
+			terms = append(terms, e)
 		}
 		if condOmits {
 			split(cond, token.LOR)
 		} else {
 			split(cond, token.LAND)
 		}
-		for _, t := range terms {
-			be, ok := t.(*ast.BinaryExpr)
-			if ok {
-				lc, lok := core.Unparen(be.X).(*ast.CallExpr)
-				rc, rok := core.Unparen(be.Y).(*ast.CallExpr)
+		isPatternFlag := func(o types.Object) bool {
+			hit := false
+			ast.Inspect(hf.Body, func(n ast.Node) bool {
+				if as, ok := n.(*ast.AssignStmt); ok && len(as.Lhs) == 2 && len(as.Rhs) == 1 {
+					if ta, ok := core.Unparen(as.Rhs[0]).(*ast.TypeAssertExpr); ok && ta.Type != nil && c23AstType(hinfo, ta.Type) == "PatternExpr" && o != nil && identObj(hinfo, as.Lhs[1]) == o {
+						hit = true
+					}
+				}
+				return true
+			})
+			return hit
+		}
+		for _, t0 := range terms {
+			t, neg := t0, false
+			for {
+				u, ok := core.Unparen(t).(*ast.UnaryExpr)
+				if !ok || u.Op != token.NOT {
+					break
+				}
+				neg = !neg
+				t = x.deref(u.X)
+			}
+			t = core.Unparen(t)
+			if be, ok := t.(*ast.BinaryExpr); ok {
+				l, r := x.deref(be.X), x.deref(be.Y)
+				lc, lok := l.(*ast.CallExpr)
+				rc, rok := r.(*ast.CallExpr)
 				if lok && rok && hf.CalleeFunc(lc) != nil && hf.CalleeFunc(rc) != nil {
 					lf, rf := hf.CalleeFunc(lc), hf.CalleeFunc(rc)
 					op := be.Op
 					if len(lc.Args) == 2 && len(rc.Args) == 1 { // slot CMP prec: mirror
 						lf, rf = rf, lf
-						op = map[token.Token]token.Token{token.LSS: token.GTR, token.GTR: token.LSS, token.LEQ: token.GEQ, token.GEQ: token.LEQ}[op]
+						op = mirror[op]
+					}
+					if neg {
+						op = flip[op]
 					}
 					if !condOmits { // brackets when cond: omit is the negation
-						op = map[token.Token]token.Token{token.LSS: token.GEQ, token.GEQ: token.LSS, token.LEQ: token.GTR, token.GTR: token.LEQ}[op]
+						op = flip[op]
 					}
 					if op == token.GEQ || op == token.GTR {
 						m.precFn, m.slotFn, m.cmp = lf, rf, op
+						// the tables must be asked about THIS operand, operator and side
+						precCall, slotCall := lc, rc
+						if len(lc.Args) == 2 && len(rc.Args) == 1 {
+							precCall, slotCall = rc, lc
+						}
+						hps := c23Params(hf)
+						paramIdx := func(e ast.Expr) int {
+							o := identObj(hinfo, x.deref(e))
+							for i, p := range hps {
+								if o != nil && p == o {
+									return i
+								}
+							}
+							return -1
+						}
+						m.nodeParam, m.opParam, m.sideParam = -1, -1, -1
+						if len(precCall.Args) == 1 {
+							m.nodeParam = paramIdx(precCall.Args[0])
+						}
+						if len(slotCall.Args) == 2 {
+							m.opParam = paramIdx(slotCall.Args[0])
+							if bv, ok := constBool(hinfo, slotCall.Args[1]); ok {
+								m.fixedSide = &bv
+							} else {
+								m.sideParam = paramIdx(slotCall.Args[1])
+							}
+						}
+						continue
+					}
+					m.unknown = append(m.unknown, exprStr(t0))
+					continue
+				}
+				// pattern-depth counter compared with a constant
+				fldOf := func(e ast.Expr) *types.Var {
+					if sel, ok := e.(*ast.SelectorExpr); ok {
+						if sl := hinfo.Selections[sel]; sl != nil && sl.Kind() == types.FieldVal {
+							if fv, ok := sl.Obj().(*types.Var); ok {
+								return fv
+							}
+						}
+					}
+					return nil
+				}
+				op := be.Op
+				fv := fldOf(l)
+				kv, kok := constInt(hinfo, be.Y)
+				if fv == nil {
+					fv = fldOf(r)
+					kv, kok = constInt(hinfo, be.X)
+					op = mirror[op]
+				}
+				if fv != nil && kok {
+					sense := 0 // +1: counter is positive, -1: counter is zero
+					switch {
+					case op == token.GTR && kv == 0, op == token.NEQ && kv == 0, op == token.GEQ && kv == 1:
+						sense = 1
+					case op == token.EQL && kv == 0, op == token.LEQ && kv == 0, op == token.LSS && kv == 1:
+						sense = -1
+					}
+					if sense != 0 {
+						m.extra = append(m.extra, extraTerm{positive: (sense > 0) != neg, fld: fv, text: exprStr(t0)})
 						continue
 					}
 				}
+				m.unknown = append(m.unknown, exprStr(t0))
+				continue
 			}
-			m.extra = append(m.extra, exprStr(t))
+			if o := identObj(hinfo, t); o != nil && isPatternFlag(o) {
+				m.extra = append(m.extra, extraTerm{positive: !neg, text: exprStr(t0)})
+				continue
+			}
+			m.unknown = append(m.unknown, exprStr(t0))
 		}
 		if m.precFn == nil {
 			m.why = "no comparison `precedence(operand) >= needed(op, side)` recognised in " + exprStr(cond)
+			return m
+		}
+		if m.nodeParam < 0 || m.opParam < 0 || (m.sideParam < 0 && m.fixedSide == nil) {
+			m.why = "the comparison in " + exprStr(cond) + " is not between the precedence of the helper's operand parameter and the precedence needed by its operator and side parameters"
+			return m
+		}
+		// in the omit form every pattern term must hold INSIDE a pattern; in the bracket form, OUTSIDE
+		for _, t := range m.extra {
+			if t.positive != condOmits {
+				m.inverted = t.text
+			}
 		}
 		return m
 	}
 	// the extra no-bracket conditions must be the pattern context
+	patternClause := func(p token.Pos) string {
+		for typ, cl := range clauses {
+			if (typ == "PatternExpr" || typ == "PatternFragment") && cl.cc.Pos() <= p && p < cl.cc.End() {
+				return typ
+			}
+		}
+		return ""
+	}
 	justifyExtra := func(hf *core.Func, m *helperModel) (ok bool, detail string) {
+		if len(m.unknown) > 0 {
+			return false, "unrecognised no-bracket condition `" + strings.Join(m.unknown, "`, `") + "`"
+		}
+		if m.inverted != "" {
+			return false, "INVERTED: the test `" + m.inverted + "` has the opposite sense"
+		}
+		var texts []string
 		for _, t := range m.extra {
-			switch {
-			case strings.Contains(t, "inPattern"):
-				// inPattern is written only around the walks of PatternExpr.Expr / PatternFragment.Expr
-				bad := ""
-				for _, f := range shipped(c) {
-					if core.Rel(f.Pkg.PkgPath) != parserPkg {
-						continue
-					}
-					ast.Inspect(f.Body, func(n ast.Node) bool {
-						if ids, ok := n.(*ast.IncDecStmt); ok && strings.HasSuffix(exprStr(ids.X), ".inPattern") {
-							in := false
-							for typ, cl := range clauses {
-								if (typ == "PatternExpr" || typ == "PatternFragment") && cl.Pos() <= ids.Pos() && ids.End() <= cl.End() {
-									in = true
-								}
+			texts = append(texts, t.text)
+			if t.fld == nil {
+				continue
+			}
+			// every change of the counter: +1 / -1 only, paired in its block, and made while printing a pattern
+			type change struct {
+				f     *core.Func
+				at    ast.Stmt
+				delta int
+			}
+			var changes []change
+			bad := ""
+			isFld := func(f *core.Func, e ast.Expr) bool {
+				sel, ok := core.Unparen(e).(*ast.SelectorExpr)
+				if !ok {
+					return false
+				}
+				sl := f.Info().Selections[sel]
+				return sl != nil && sl.Obj() == t.fld
+			}
+			for _, f := range parserFuncs {
+				if f.Lit != nil {
+					continue // literal bodies are walked with their declaration
+				}
+				ast.Inspect(f.Body, func(n ast.Node) bool {
+					switch y := n.(type) {
+					case *ast.IncDecStmt:
+						if isFld(f, y.X) {
+							d := 1
+							if y.Tok == token.DEC {
+								d = -1
 							}
-							if !in {
-								bad = c.Prog.Position(ids.Pos())
+							changes = append(changes, change{f, y, d})
+						}
+					case *ast.AssignStmt:
+						for i, l := range y.Lhs {
+							if !isFld(f, l) {
+								continue
+							}
+							k, kok := int64(0), false
+							if len(y.Rhs) == len(y.Lhs) {
+								k, kok = constInt(f.Info(), y.Rhs[i])
+							}
+							switch {
+							case y.Tok == token.ADD_ASSIGN && kok && k == 1:
+								changes = append(changes, change{f, y, 1})
+							case y.Tok == token.SUB_ASSIGN && kok && k == 1:
+								changes = append(changes, change{f, y, -1})
+							default:
+								bad = c.Prog.Position(y.Pos())
 							}
 						}
-						if as, ok := n.(*ast.AssignStmt); ok {
-							for _, l := range as.Lhs {
-								if strings.HasSuffix(exprStr(l), ".inPattern") {
-									bad = c.Prog.Position(as.Pos())
-								}
-							}
+					case *ast.UnaryExpr:
+						if y.Op == token.AND && isFld(f, y.X) {
+							bad = c.Prog.Position(y.Pos())
 						}
-						return true
-					})
-				}
-				if bad != "" {
-					return false, "inPattern is changed outside the pattern clauses at " + bad
-				}
-				// inside each pattern clause: ++ before the walk, -- after it, same number of each
-				for typ, cl := range clauses {
-					if typ != "PatternExpr" && typ != "PatternFragment" {
-						continue
 					}
-					inc, dec := 0, 0
-					okOrder := true
-					for _, st := range cl.Body {
-						if ids, ok := st.(*ast.IncDecStmt); ok && strings.HasSuffix(exprStr(ids.X), ".inPattern") {
-							if ids.Tok == token.INC {
-								inc++
-							} else {
-								dec++
-								if dec > inc {
-									okOrder = false
-								}
+					return true
+				})
+			}
+			if bad != "" {
+				return false, t.fld.Name() + " is changed other than by one up / one down at " + bad
+			}
+			if len(changes) == 0 {
+				return false, t.fld.Name() + " is never changed: the pattern context is never entered"
+			}
+			// pairing inside each statement list
+			lists := map[*core.Func][][]ast.Stmt{}
+			for _, ch := range changes {
+				if _, done := lists[ch.f]; done {
+					continue
+				}
+				var ls [][]ast.Stmt
+				ast.Inspect(ch.f.Body, func(n ast.Node) bool {
+					switch y := n.(type) {
+					case *ast.BlockStmt:
+						ls = append(ls, y.List)
+					case *ast.CaseClause:
+						ls = append(ls, y.Body)
+					case *ast.CommClause:
+						ls = append(ls, y.Body)
+					}
+					return true
+				})
+				lists[ch.f] = ls
+			}
+			delta := map[ast.Stmt]int{}
+			for _, ch := range changes {
+				delta[ch.at] = ch.delta
+			}
+			for f, ls := range lists {
+				for _, l := range ls {
+					inc, dec, okOrder := 0, 0, true
+					var first ast.Stmt
+					for _, st := range l {
+						switch delta[st] {
+						case 1:
+							inc++
+							if first == nil {
+								first = st
+							}
+						case -1:
+							dec++
+							if first == nil {
+								first = st
+							}
+							if dec > inc {
+								okOrder = false
 							}
 						}
 					}
 					if inc != dec || !okOrder {
-						return false, "PAIRING: the pattern context is entered " + fmt.Sprint(inc) + " times and left " + fmt.Sprint(dec) + " times in the " + typ + " clause"
+						where := patternClause(first.Pos())
+						if where == "" {
+							where = f.Key
+						} else {
+							where += " clause"
+						}
+						return false, "PAIRING: the pattern context is entered " + fmt.Sprint(inc) + " times and left " + fmt.Sprint(dec) + " times in the " + where
 					}
 				}
-			default:
-				// a boolean bound by a comma-ok assertion to *ast.PatternExpr
-				okT := false
-				if id, isId := core.Unparen(parseExprOrNil(hf, t)).(*ast.Ident); isId || true {
-					_ = id
-					ast.Inspect(hf.Body, func(n ast.Node) bool {
-						if as, ok := n.(*ast.AssignStmt); ok && len(as.Lhs) == 2 && len(as.Rhs) == 1 {
-							if ta, ok := as.Rhs[0].(*ast.TypeAssertExpr); ok && exprStr(ta.Type) == "*ast.PatternExpr" && exprStr(as.Lhs[1]) == t {
-								okT = true
-							}
+			}
+			// made while printing a pattern: inside a pattern clause, or inside a helper called only from there
+			var patternOnly func(f *core.Func, depth int) bool
+			patternOnly = func(f *core.Func, depth int) bool {
+				if f == up || depth > 2 || f.Lit != nil {
+					return false
+				}
+				n := 0
+				okAll := true
+				for _, g := range parserFuncs {
+					ast.Inspect(g.Body, func(y ast.Node) bool {
+						if lit, isLit := y.(*ast.FuncLit); isLit && g.Lit != lit {
+							return false // visited as its own function
+						}
+						call, isCall := y.(*ast.CallExpr)
+						if !isCall || g.CalleeFunc(call) != f {
+							return true
+						}
+						n++
+						root := g
+						for root.Parent != nil {
+							root = root.Parent
+						}
+						switch {
+						case root == up && patternClause(call.Pos()) != "":
+						case root != up && root != f && patternOnly(root, depth+1):
+						default:
+							okAll = false
 						}
 						return true
 					})
 				}
-				if !okT {
-					return false, "unrecognised no-bracket condition `" + t + "`"
+				return n > 0 && okAll
+			}
+			for _, ch := range changes {
+				root := ch.f
+				for root.Parent != nil {
+					root = root.Parent
 				}
+				if root == up && patternClause(ch.at.Pos()) != "" {
+					continue
+				}
+				if root != up && patternOnly(root, 0) {
+					c.Analysed(root)
+					continue
+				}
+				return false, t.fld.Name() + " is changed outside the printing of a pattern at " + c.Prog.Position(ch.at.Pos())
 			}
 		}
-		return true, strings.Join(m.extra, " || ")
+		return true, strings.Join(texts, " || ")
 	}
 	evalPrec := func(fn *core.Func, k c23Kind) (int64, bool, string) {
 		ps := c23Params(fn)
@@ -1048,6 +1660,8 @@ func c23Brackets(c *core.Check, up *core.Func, g *yGrammar, slots []c23Slot, kin
 				if ok, det := justifyExtra(site.helper, model); !ok {
 					if strings.HasPrefix(det, "PAIRING") {
 						c.Fail("C23-R2", keyBase, pos(c, site.call), "brackets are suppressed while the printer believes it is inside a pattern concatenation, and that belief is not reset: "+det+" — after the first pattern every later operand is printed without the brackets it needs")
+					} else if strings.HasPrefix(det, "INVERTED") {
+						c.Fail("C23-R2", keyBase, pos(c, site.call), "the pattern-context exception of the bracket decision is inverted ("+det+"): outside patterns every operand is printed without brackets whatever its precedence, and inside a pattern concatenation, where the grammar admits none, brackets are printed")
 					} else {
 						c.Undecided("C23-R2", keyBase, pos(c, site.call), det)
 					}
@@ -1076,9 +1690,21 @@ func c23Brackets(c *core.Check, up *core.Func, g *yGrammar, slots []c23Slot, kin
 				omit := true
 				detail := "printed by a plain ast.Walk: never bracketed"
 				if model != nil {
+					// the side the helper asks its table about: a constant of its own, or the constant the clause passes
 					right := side == "right"
-					if site.right != nil {
-						right = *site.right
+					switch {
+					case site.argIdx != model.nodeParam || model.opParam >= len(site.call.Args) || !x.isOp(clauses[sl.Node], site.call.Args[model.opParam]):
+						c.Undecided("C23-R2", key, pos(c, site.call), "the bracket helper "+site.helper.Key+" does not take the precedence of the operand it is handed, or is not handed the node's operator")
+						continue
+					case model.fixedSide != nil:
+						right = *model.fixedSide
+					default:
+						bv, ok := constBool(info, site.call.Args[model.sideParam])
+						if !ok {
+							c.Undecided("C23-R2", key, pos(c, site.call), "the side handed to "+site.helper.Key+" is not a constant")
+							continue
+						}
+						right = bv
 					}
 					pv, ok1, w1 := evalPrec(model.precFn, k)
 					sv, ok2, w2 := evalSlot(model.slotFn, sl.Op, right)
@@ -1123,9 +1749,9 @@ func c23Brackets(c *core.Check, up *core.Func, g *yGrammar, slots []c23Slot, kin
 					return true
 				}
 				for _, e := range cc.List {
-					if exprStr(e) == "*ast."+typ {
-						ast.Inspect(cc, func(x ast.Node) bool {
-							if call, ok := x.(*ast.CallExpr); ok && m.precFn.CalleeFunc(call) == m.precFn {
+					if c23AstType(m.precFn.Info(), e) == typ {
+						ast.Inspect(cc, func(y ast.Node) bool {
+							if call, ok := y.(*ast.CallExpr); ok && m.precFn.CalleeFunc(call) == m.precFn {
 								through = true
 							}
 							return true
@@ -1134,13 +1760,10 @@ func c23Brackets(c *core.Check, up *core.Func, g *yGrammar, slots []c23Slot, kin
 				}
 				return true
 			})
-			c.Verdict(through, "C23-R2", "transparent "+typ, pos(c, cl), "precedence looks through "+typ, "the formatter prints "+typ+" (inserted by the type checker around operands) transparently but the precedence table treats it as a primary: a converted operand such as `(a + b) * 2.0` loses its brackets when mfmt prints the checked program")
+			c.Verdict(through, "C23-R2", "transparent "+typ, pos(c, cl.cc), "precedence looks through "+typ, "the formatter prints "+typ+" (inserted by the type checker around operands) transparently but the precedence table treats it as a primary: a converted operand such as `(a + b) * 2.0` loses its brackets when mfmt prints the checked program")
 		}
 	}
 }
-
-// parseExprOrNil is a tiny helper: the term text is already an identifier name here.
-func parseExprOrNil(f *core.Func, s string) ast.Expr { return &ast.Ident{Name: s} }
 
 // c23ReturnExprs lists the result expressions of f's return statements.
 func c23ReturnExprs(f *core.Func) []ast.Expr {
@@ -1154,53 +1777,88 @@ func c23ReturnExprs(f *core.Func) []ast.Expr {
 	return out
 }
 
-// c23Flatten splits a + concatenation.
-func c23Flatten(e ast.Expr) []ast.Expr {
-	if be, ok := core.Unparen(e).(*ast.BinaryExpr); ok && be.Op == token.ADD {
-		return append(c23Flatten(be.X), c23Flatten(be.Y)...)
+// flatten splits a + concatenation, looking through single-assignment locals.
+func (x *c23Ctx) flatten(e ast.Expr) []ast.Expr {
+	e = x.deref(e)
+	if be, ok := e.(*ast.BinaryExpr); ok && be.Op == token.ADD {
+		return append(x.flatten(be.X), x.flatten(be.Y)...)
 	}
-	return []ast.Expr{core.Unparen(e)}
+	return []ast.Expr{e}
 }
 
-// c23QuoteShape checks that e is `D + R(x) + D` where R is a nest of
-// strings.ReplaceAll calls that puts a backslash in front of exactly the
-// characters in esc (the backslash itself, if it is among them, first) and
-// returns x.
-func c23QuoteShape(f *core.Func, e ast.Expr, delim string, esc []string) (ast.Expr, bool) {
-	parts := c23Flatten(e)
-	if len(parts) != 3 {
-		return nil, false
-	}
-	cs := func(x ast.Expr) (string, bool) {
-		tv, ok := f.Info().Types[x]
-		if !ok || tv.Value == nil || tv.Value.Kind() != constant.String {
-			return "", false
+// mentions reports whether e, read through single-assignment locals, contains an expression satisfying pred.
+func (x *c23Ctx) mentions(e ast.Expr, pred func(ast.Expr) bool, depth int) bool {
+	hit := false
+	ast.Inspect(e, func(n ast.Node) bool {
+		y, ok := n.(ast.Expr)
+		if !ok || hit {
+			return !hit
 		}
-		return constant.StringVal(tv.Value), true
+		if pred(y) {
+			hit = true
+			return false
+		}
+		if id, ok := y.(*ast.Ident); ok && depth < 4 {
+			if d := x.deref(id); d != ast.Expr(id) && x.mentions(d, pred, depth+1) {
+				hit = true
+			}
+		}
+		return !hit
+	})
+	return hit
+}
+
+type c23Quote int
+
+const (
+	c23QuoteOK      c23Quote = iota // delimiter + inverse of the lexer's unescaping + delimiter
+	c23QuoteWrong                   // that shape, with the wrong delimiters, set or order of escapes — or no escaping at all
+	c23QuoteUnknown                 // another way of building the text: not decided
+)
+
+// quoteShape reads e as `D + R(inner) + D` where R is a (possibly empty) nest of
+// strings.ReplaceAll calls, each putting a backslash in front of one character.
+// It is OK when D is the delimiter and R escapes exactly the characters in esc
+// (the backslash itself, if it is among them, first).
+func (x *c23Ctx) quoteShape(e ast.Expr, delim string, esc []string) (inner ast.Expr, st c23Quote, why string) {
+	parts := x.flatten(e)
+	if len(parts) != 3 {
+		return nil, c23QuoteUnknown, ""
 	}
-	a, ok1 := cs(parts[0])
-	b, ok2 := cs(parts[2])
-	if !ok1 || !ok2 || a != delim || b != delim {
-		return nil, false
+	a, ok1 := x.constStr(parts[0])
+	b, ok2 := x.constStr(parts[2])
+	if !ok1 || !ok2 {
+		return nil, c23QuoteUnknown, ""
 	}
 	// unnest ReplaceAll(ReplaceAll(x, o1, n1), o2, n2): application order o1, o2
 	var olds []string
-	cur := parts[1]
+	cur := x.deref(parts[1])
+	bad := ""
 	for {
-		call, ok := core.Unparen(cur).(*ast.CallExpr)
-		if !ok || f.CalleeID(call) != "strings.ReplaceAll" || len(call.Args) != 3 {
+		call, ok := cur.(*ast.CallExpr)
+		if !ok || x.up.CalleeID(call) != "strings.ReplaceAll" || len(call.Args) != 3 {
 			break
 		}
-		o, okO := cs(call.Args[1])
-		n, okN := cs(call.Args[2])
-		if !okO || !okN || n != "\\"+o {
-			return nil, false
+		o, okO := x.constStr(call.Args[1])
+		n, okN := x.constStr(call.Args[2])
+		if !okO || !okN {
+			return nil, c23QuoteUnknown, ""
+		}
+		if n != "\\"+o {
+			bad = fmt.Sprintf("replaces %q by %q instead of a backslash and the character", o, n)
 		}
 		olds = append([]string{o}, olds...)
-		cur = call.Args[0]
+		cur = x.deref(call.Args[0])
 	}
-	if len(olds) != len(esc) {
-		return nil, false
+	switch {
+	case a != delim || b != delim:
+		return cur, c23QuoteWrong, fmt.Sprintf("delimiters %q … %q", a, b)
+	case bad != "":
+		return cur, c23QuoteWrong, bad
+	case len(olds) == 0:
+		return cur, c23QuoteWrong, "the text is put between the delimiters as it is"
+	case len(olds) != len(esc):
+		return cur, c23QuoteWrong, fmt.Sprintf("escapes %q where the lexer unescapes %q", olds, esc)
 	}
 	want := map[string]bool{}
 	for _, d := range esc {
@@ -1208,20 +1866,21 @@ func c23QuoteShape(f *core.Func, e ast.Expr, delim string, esc []string) (ast.Ex
 	}
 	for i, o := range olds {
 		if !want[o] {
-			return nil, false
+			return cur, c23QuoteWrong, fmt.Sprintf("escapes %q where the lexer unescapes %q", olds, esc)
 		}
 		delete(want, o)
 		if o == "\\" && i != 0 {
-			return nil, false // escaping the backslash after another escape doubles that escape's backslash
+			return cur, c23QuoteWrong, "escapes the backslash after another escape, doubling that escape's backslash"
 		}
 	}
-	return cur, len(want) == 0
+	return cur, c23QuoteOK, ""
 }
 
 // c23Literals decides rule R3.
-func c23Literals(c *core.Check, up *core.Func, clauses map[string]*ast.CaseClause, clauseVar map[*ast.CaseClause]types.Object) {
-	c.Rule("C23-R3", "ESCAPING: the lexer strips the backslash from an escaped delimiter inside a quoted string (\") and a regex (/) and keeps other escapes; the printer emits StringLit.Text, VarDecl.ExportedName and PatternLit.Pattern as delimiter + ReplaceAll(text, delimiter, backslash+delimiter) + delimiter (directly or through a helper of that shape); VarDecl.Name and the elements of VarDecl.Keys, which the grammar takes from an identifier or a string, go through a function that returns its argument bare only if it is spelled like an identifier that is neither keyword nor builtin, and quoted by the same helper otherwise")
-	info := up.Info()
+func c23Literals(x *c23Ctx) {
+	c, up, clauses := x.c, x.up, x.clauses
+	c.Rule("C23-R3", "ESCAPING: the lexer strips the backslash from an escaped delimiter inside a quoted string (\") and a regex (/) and keeps other escapes; the printer emits StringLit.Text, VarDecl.ExportedName and PatternLit.Pattern as delimiter + ReplaceAll(text, delimiter, backslash+delimiter) + delimiter (directly, through a local, or through a helper of that shape); VarDecl.Name and the elements of VarDecl.Keys, which the grammar takes from an identifier or a string, go through a function that returns its argument bare only if it is spelled like an identifier that is neither keyword nor builtin, and quoted by the same helper otherwise")
+	info := x.info
 	// delimiter unescaped by the lexer
 	lexDelim := func(key string) ([]string, bool) {
 		lf := c.Prog.Fn(key)
@@ -1229,13 +1888,25 @@ func c23Literals(c *core.Check, up *core.Func, clauses map[string]*ast.CaseClaus
 			return nil, false
 		}
 		c.Analysed(lf)
+		linfo := lf.Info()
+		runeConst := func(e ast.Expr) (string, bool) {
+			tv, ok := linfo.Types[e]
+			if !ok || tv.Value == nil || tv.Value.Kind() != constant.Int {
+				return "", false
+			}
+			r, exact := constant.Int64Val(tv.Value)
+			if !exact || r < 0 {
+				return "", false
+			}
+			return string(rune(r)), true
+		}
 		var ds []string
 		ast.Inspect(lf.Body, func(n ast.Node) bool {
 			is, ok := n.(*ast.IfStmt)
 			if !ok {
 				return true
 			}
-			// condition: r != 'a' && r != 'b' ...
+			// condition: r != 'a' && r != 'b' ... (either operand order, literal or named constant)
 			var chars []string
 			okCond := true
 			var walk func(e ast.Expr)
@@ -1250,29 +1921,38 @@ func c23Literals(c *core.Check, up *core.Func, clauses map[string]*ast.CaseClaus
 					walk(be.Y)
 					return
 				}
-				bl, isLit := core.Unparen(be.Y).(*ast.BasicLit)
-				if be.Op != token.NEQ || !isLit || bl.Kind != token.CHAR {
+				if be.Op != token.NEQ {
 					okCond = false
 					return
 				}
-				if tv := lf.Info().Types[bl]; tv.Value != nil {
-					if r, ok := constant.Int64Val(tv.Value); ok {
-						chars = append(chars, string(rune(r)))
-					}
+				cx, isX := runeConst(be.X)
+				cy, isY := runeConst(be.Y)
+				switch {
+				case isY && !isX:
+					chars = append(chars, cy)
+				case isX && !isY:
+					chars = append(chars, cx)
+				default:
+					okCond = false
 				}
 			}
 			walk(is.Cond)
 			if !okCond || len(chars) == 0 {
 				return true
 			}
-			// body writes the backslash
+			// the body itself (not a nested statement) writes the backslash
 			writes := false
-			ast.Inspect(is.Body, func(m ast.Node) bool {
-				if call, ok := m.(*ast.CallExpr); ok && strings.HasSuffix(lf.CalleeID(call), "WriteRune") && len(call.Args) == 1 && exprStr(call.Args[0]) == `'\\'` {
-					writes = true
+			for _, st := range is.Body.List {
+				es, ok := st.(*ast.ExprStmt)
+				if !ok {
+					continue
 				}
-				return true
-			})
+				if call, ok := es.X.(*ast.CallExpr); ok && strings.HasSuffix(lf.CalleeID(call), "WriteRune") && len(call.Args) == 1 {
+					if r, ok := runeConst(call.Args[0]); ok && r == "\\" {
+						writes = true
+					}
+				}
+			}
 			if writes {
 				ds = chars
 			}
@@ -1287,9 +1967,9 @@ func c23Literals(c *core.Check, up *core.Func, clauses map[string]*ast.CaseClaus
 		return
 	}
 	strDelim, reDelim := "\"", "/"
-	has := func(xs []string, x string) bool {
-		for _, y := range xs {
-			if y == x {
+	has := func(xs []string, y string) bool {
+		for _, z := range xs {
+			if z == y {
 				return true
 			}
 		}
@@ -1301,43 +1981,50 @@ func c23Literals(c *core.Check, up *core.Func, clauses map[string]*ast.CaseClaus
 	}
 	escOf := map[string][]string{strDelim: strEsc, reDelim: reEsc}
 	c.Extra["lexer_unescapes"] = map[string][]string{"string": strEsc, "regex": reEsc}
-	// does expression e (inside function f) print field fv of v through the quote shape with delim?
-	var quoted func(f *core.Func, e ast.Expr, delim string, isField func(ast.Expr) bool, depth int) bool
-	quoted = func(f *core.Func, e ast.Expr, delim string, isField func(ast.Expr) bool, depth int) bool {
-		if x, ok := c23QuoteShape(f, e, delim, escOf[delim]); ok {
-			return isField(x)
+	// how does expression e print the text selected by isField?
+	var quoted func(e ast.Expr, delim string, isField func(ast.Expr) bool, depth int) (c23Quote, string)
+	quoted = func(e ast.Expr, delim string, isField func(ast.Expr) bool, depth int) (c23Quote, string) {
+		if inner, st, why := x.quoteShape(e, delim, escOf[delim]); st != c23QuoteUnknown && inner != nil && isField(inner) {
+			return st, why
 		}
 		// through a helper: f2(field) whose every return has the shape on its parameter
-		if call, ok := core.Unparen(e).(*ast.CallExpr); ok && depth < 3 {
-			if hf := f.CalleeFunc(call); hf != nil && len(call.Args) == 1 && isField(call.Args[0]) {
+		if call, ok := x.deref(e).(*ast.CallExpr); ok && depth < 3 {
+			if hf := up.CalleeFunc(call); hf != nil && len(call.Args) == 1 && isField(call.Args[0]) {
 				ps := c23Params(hf)
-				if len(ps) != 1 {
-					return false
-				}
 				rets := c23ReturnExprs(hf)
-				if len(rets) == 0 {
-					return false
+				if len(ps) != 1 || len(rets) == 0 {
+					return c23QuoteUnknown, ""
 				}
+				isParam := func(y ast.Expr) bool { return identObj(info, x.deref(y)) == ps[0] }
+				worst, wwhy := c23QuoteOK, ""
 				for _, r := range rets {
-					if !quoted(hf, r, delim, func(x ast.Expr) bool { return identObj(hf.Info(), x) == ps[0] }, depth+1) {
-						return false
+					st, why := quoted(r, delim, isParam, depth+1)
+					if st == c23QuoteWrong {
+						return st, hf.Key + ": " + why
+					}
+					if st == c23QuoteUnknown {
+						worst, wwhy = st, why
 					}
 				}
 				c.Analysed(hf)
-				return true
+				return worst, wwhy
 			}
 		}
-		return false
-	}
-	fieldIs := func(v types.Object, name string) func(ast.Expr) bool {
-		return func(x ast.Expr) bool {
-			sel, ok := core.Unparen(x).(*ast.SelectorExpr)
-			return ok && sel.Sel.Name == name && identObj(info, sel.X) == v
+		// the text itself, possibly between constant strings
+		var rest []ast.Expr
+		for _, p := range x.flatten(e) {
+			if _, isConst := x.constStr(p); !isConst {
+				rest = append(rest, p)
+			}
 		}
+		if len(rest) == 1 && isField(rest[0]) {
+			return c23QuoteWrong, "the text is printed as it is"
+		}
+		return c23QuoteUnknown, ""
 	}
-	emitsIn := func(cl *ast.CaseClause) []*ast.CallExpr {
+	emitsIn := func(cl *c23Clause) []*ast.CallExpr {
 		var out []*ast.CallExpr
-		for _, st := range cl.Body {
+		for _, st := range cl.stmts {
 			ast.Inspect(st, func(n ast.Node) bool {
 				if call, ok := n.(*ast.CallExpr); ok && strings.HasSuffix(up.CalleeID(call), "(*Unparser).emit") && len(call.Args) == 1 {
 					out = append(out, call)
@@ -1354,74 +2041,87 @@ func c23Literals(c *core.Check, up *core.Func, clauses map[string]*ast.CaseClaus
 			c.Undecided("C23-R3", key, "-", "no clause")
 			return
 		}
-		v := clauseVar[cl]
-		isF := fieldIs(v, field)
-		okQ, found := false, false
+		isF := func(e ast.Expr) bool { return x.nodeField(cl, e, field) }
+		best, bestWhy, found := c23QuoteUnknown, "", false
 		for _, call := range emitsIn(cl) {
-			uses := false
-			ast.Inspect(call.Args[0], func(n ast.Node) bool {
-				if e, ok := n.(ast.Expr); ok && isF(e) {
-					uses = true
-				}
-				return true
-			})
-			if !uses {
+			if !x.mentions(call.Args[0], isF, 0) {
 				continue
 			}
 			found = true
 			arg := call.Args[0]
 			// allow a constant prefix: " as " + quote(x)
-			parts := c23Flatten(arg)
-			if len(parts) == 2 {
-				if tv, ok := info.Types[parts[0]]; ok && tv.Value != nil {
+			if parts := x.flatten(arg); len(parts) == 2 {
+				if _, isConst := x.constStr(parts[0]); isConst {
 					arg = parts[1]
 				}
 			}
-			if quoted(up, arg, delim, isF, 0) {
-				okQ = true
+			st, why := quoted(arg, delim, isF, 0)
+			switch {
+			case st == c23QuoteOK:
+				best = st
+			case st == c23QuoteWrong && best != c23QuoteOK:
+				best, bestWhy = st, why
 			}
 		}
 		if !found {
-			return // R1 reports a field that is not printed at all
+			return // R1 reports a field that is not printed at all; the floor reports a print site that was not recognised
 		}
-		c.Verdict(okQ, "C23-R3", key, pos(c, cl), "delimiter "+delim+" re-escaped", fmt.Sprintf("the formatter prints %s without putting back (in the right order) the backslash the lexer removes in front of %q: a literal containing such a character is formatted into text that ends the literal early or changes its contents (it no longer parses, or parses to other literals)", key, escOf[delim]))
+		switch best {
+		case c23QuoteOK:
+			c.Ok("C23-R3", key, pos(c, cl.cc), "delimiter "+delim+" re-escaped")
+		case c23QuoteWrong:
+			c.Fail("C23-R3", key, pos(c, cl.cc), fmt.Sprintf("the formatter prints %s without putting back (in the right order) the backslash the lexer removes in front of %q (%s): a literal containing such a character is formatted into text that ends the literal early or changes its contents (it no longer parses, or parses to other literals)", key, escOf[delim], bestWhy))
+		default:
+			c.Undecided("C23-R3", key, pos(c, cl.cc), "the way "+key+" is turned into a quoted literal was not recognised (expected delimiter + strings.ReplaceAll nest + delimiter, directly or through a helper)")
+		}
 	}
 	check("StringLit", "Text", strDelim)
 	check("VarDecl", "ExportedName", strDelim)
 	check("PatternLit", "Pattern", reDelim)
 	// id-or-string positions
 	if cl := clauses["VarDecl"]; cl != nil {
-		v := clauseVar[cl]
 		for _, field := range []string{"Name", "Keys"} {
 			key := "VarDecl." + field + " id-or-string"
 			var helper *core.Func
 			var where ast.Node
-			for _, st := range cl.Body {
+			// loop variables ranging over the node's Keys
+			keyVar := map[types.Object]bool{}
+			for _, st := range cl.stmts {
+				ast.Inspect(st, func(m ast.Node) bool {
+					if rs, ok := m.(*ast.RangeStmt); ok && x.nodeField(cl, rs.X, "Keys") && rs.Value != nil {
+						if o := identObj(info, rs.Value); o != nil {
+							keyVar[o] = true
+						}
+					}
+					return true
+				})
+			}
+			isElem := func(e ast.Expr) bool {
+				e = core.Unparen(e)
+				if id, ok := e.(*ast.Ident); ok && keyVar[identObj(info, id)] {
+					return true
+				}
+				e = x.deref(e)
+				if ix, ok := e.(*ast.IndexExpr); ok && x.nodeField(cl, ix.X, "Keys") {
+					return true
+				}
+				return false
+			}
+			for _, st := range cl.stmts {
 				ast.Inspect(st, func(n ast.Node) bool {
 					call, ok := n.(*ast.CallExpr)
 					if !ok || len(call.Args) != 1 {
 						return true
 					}
 					hf := up.CalleeFunc(call)
-					if hf == nil {
+					if hf == nil || cl.calls[call] != nil {
 						return true
 					}
-					arg := core.Unparen(call.Args[0])
-					if field == "Name" && fieldIs(v, "Name")(arg) {
+					if field == "Name" && x.nodeField(cl, call.Args[0], "Name") {
 						helper, where = hf, call
 					}
-					if field == "Keys" {
-						// element of a range over v.Keys
-						if id, ok := arg.(*ast.Ident); ok {
-							for _, st2 := range cl.Body {
-								ast.Inspect(st2, func(m ast.Node) bool {
-									if rs, ok := m.(*ast.RangeStmt); ok && fieldIs(v, "Keys")(rs.X) && rs.Value != nil && identObj(info, rs.Value) == identObj(info, id) {
-										helper, where = hf, call
-									}
-									return true
-								})
-							}
-						}
+					if field == "Keys" && isElem(call.Args[0]) {
+						helper, where = hf, call
 					}
 					return true
 				})
@@ -1430,17 +2130,14 @@ func c23Literals(c *core.Check, up *core.Func, clauses map[string]*ast.CaseClaus
 				// printed raw?
 				raw := false
 				for _, call := range emitsIn(cl) {
-					ast.Inspect(call.Args[0], func(n ast.Node) bool {
-						if e, ok := n.(ast.Expr); ok && fieldIs(v, field)(e) {
-							raw = true
-						}
-						return true
-					})
+					if x.mentions(call.Args[0], func(e ast.Expr) bool { return x.nodeField(cl, e, field) }, 0) {
+						raw = true
+					}
 				}
 				if raw {
-					c.Fail("C23-R3", key, pos(c, cl), "VarDecl."+field+" is printed as it is; the grammar also takes it from a quoted string (`counter \"a-b\"`, `by \"x y\"`), whose text does not lex as an identifier: the formatted declaration does not parse or declares another name")
+					c.Fail("C23-R3", key, pos(c, cl.cc), "VarDecl."+field+" is printed as it is; the grammar also takes it from a quoted string (`counter \"a-b\"`, `by \"x y\"`), whose text does not lex as an identifier: the formatted declaration does not parse or declares another name")
 				} else {
-					c.Undecided("C23-R3", key, pos(c, cl), "how VarDecl."+field+" is printed was not recognised")
+					c.Undecided("C23-R3", key, pos(c, cl.cc), "how VarDecl."+field+" is printed was not recognised")
 				}
 				continue
 			}
@@ -1448,29 +2145,55 @@ func c23Literals(c *core.Check, up *core.Func, clauses map[string]*ast.CaseClaus
 			// helper: every return is the parameter itself or the quote shape of it; the bare return is guarded by character, keyword and builtin tests
 			ps := c23Params(helper)
 			okShape := len(ps) == 1
+			unknownRet := false
 			bare, quotedRet := 0, 0
 			for _, r := range c23ReturnExprs(helper) {
-				if okShape && identObj(helper.Info(), r) == ps[0] {
+				if !okShape {
+					break
+				}
+				isParam := func(y ast.Expr) bool { return identObj(info, x.deref(y)) == ps[0] }
+				if isParam(r) {
 					bare++
-				} else if okShape && quoted(helper, r, strDelim, func(x ast.Expr) bool { return identObj(helper.Info(), x) == ps[0] }, 0) {
+					continue
+				}
+				switch st, _ := quoted(r, strDelim, isParam, 0); st {
+				case c23QuoteOK:
 					quotedRet++
-				} else {
+				case c23QuoteWrong:
 					okShape = false
+				default:
+					unknownRet = true
 				}
 			}
-			usesTable := func(name string) bool {
-				hit := false
-				ast.Inspect(helper.Body, func(n ast.Node) bool {
-					if id, ok := n.(*ast.Ident); ok && id.Name == name {
-						if o := helper.Info().Uses[id]; o != nil && o.Pkg() != nil && o.Parent() == o.Pkg().Scope() {
-							hit = true
+			// the lexer tables consulted by the helper or by the functions it calls
+			used := map[string]bool{}
+			var scan func(f *core.Func, depth int)
+			seenF := map[*core.Func]bool{}
+			scan = func(f *core.Func, depth int) {
+				if seenF[f] || depth > 3 {
+					return
+				}
+				seenF[f] = true
+				ast.Inspect(f.Body, func(n ast.Node) bool {
+					switch y := n.(type) {
+					case *ast.Ident:
+						if o := f.Info().Uses[y]; o != nil && o.Pkg() != nil && o.Parent() == o.Pkg().Scope() {
+							used[o.Name()] = true
+						}
+					case *ast.CallExpr:
+						if cf := f.CalleeFunc(y); cf != nil && cf.Lit == nil && core.Rel(cf.Pkg.PkgPath) == parserPkg {
+							scan(cf, depth+1)
 						}
 					}
-					return !hit
+					return true
 				})
-				return hit
 			}
-			guards := usesTable("keywords") && usesTable("builtins") && (usesTable("isAlpha") || usesTable("isAlnum"))
+			scan(helper, 0)
+			guards := used["keywords"] && used["builtins"] && (used["isAlpha"] || used["isAlnum"])
+			if okShape && unknownRet {
+				c.Undecided("C23-R3", key, pos(c, where), helper.Key+" has a return that is neither its argument nor a recognised quoting of it")
+				continue
+			}
 			c.Verdict(okShape && bare == 1 && quotedRet >= 1 && guards, "C23-R3", key, pos(c, where), "bare only when it lexes as one ID (character classes, keywords and builtins consulted), quoted otherwise", fmt.Sprintf("%s does not quote every spelling that fails to lex as a single identifier (returns: %d bare, %d quoted; consults lexer tables: %v)", helper.Key, bare, quotedRet, guards))
 		}
 	}
@@ -1478,11 +2201,12 @@ func c23Literals(c *core.Check, up *core.Func, clauses map[string]*ast.CaseClaus
 }
 
 // c23Numbers decides rule R4.
-func c23Numbers(c *core.Check, up *core.Func, clauses map[string]*ast.CaseClause, clauseVar map[*ast.CaseClause]types.Object) {
+func c23Numbers(x *c23Ctx) {
+	c, up, clauses := x.c, x.up, x.clauses
 	c.Rule("C23-R4", "NUMBERS: every float64 the printer emits (FloatLit.F, elements of VarDecl.Buckets) is formatted by strconv.FormatFloat(x, 'g'|'e'|'f', -1, 64) — the shortest text that parses back to x — and never by a fmt verb; the text of a FloatLit additionally gets a decimal point or exponent when it has neither (the lexer reads bare digits as an integer literal); IntLit.I is printed in base 10")
-	info := up.Info()
-	isFloat := func(f *core.Func, e ast.Expr) bool {
-		t := f.Info().TypeOf(e)
+	info := x.info
+	isFloat := func(e ast.Expr) bool {
+		t := info.TypeOf(e)
 		if t == nil {
 			return false
 		}
@@ -1492,102 +2216,215 @@ func c23Numbers(c *core.Check, up *core.Func, clauses map[string]*ast.CaseClause
 	// classify a formatting function: shortest (FormatFloat prec -1) and forcing a float spelling
 	type fmtInfo struct {
 		shortest, forced bool
-		bad              string
+		bad              string // positively wrong
+		und              string // shape not recognised
 	}
-	var classify func(f *core.Func, e ast.Expr, depth int) fmtInfo
-	classify = func(f *core.Func, e ast.Expr, depth int) fmtInfo {
-		call, ok := core.Unparen(e).(*ast.CallExpr)
+	var classify func(e ast.Expr, depth int) fmtInfo
+	classify = func(e ast.Expr, depth int) fmtInfo {
+		call, ok := x.deref(e).(*ast.CallExpr)
 		if !ok {
-			return fmtInfo{bad: "not a call: " + exprStr(e)}
+			return fmtInfo{und: "not a call: " + exprStr(e)}
 		}
-		id := f.CalleeID(call)
+		id := up.CalleeID(call)
 		switch {
 		case id == "strconv.FormatFloat" && len(call.Args) == 4:
-			prec, okp := constInt(f.Info(), call.Args[2])
-			bits, okb := constInt(f.Info(), call.Args[3])
-			if okp && okb && prec == -1 && bits == 64 {
-				return fmtInfo{shortest: true}
+			verb, okv := constInt(info, call.Args[1])
+			prec, okp := constInt(info, call.Args[2])
+			bits, okb := constInt(info, call.Args[3])
+			if !okv || !okp || !okb {
+				return fmtInfo{und: "FormatFloat with non-constant format arguments"}
 			}
-			return fmtInfo{bad: "FormatFloat with a fixed precision"}
+			if prec != -1 || bits != 64 {
+				return fmtInfo{bad: "FormatFloat with a fixed precision"}
+			}
+			if verb != 'g' && verb != 'e' && verb != 'f' {
+				return fmtInfo{bad: fmt.Sprintf("FormatFloat with format %q, which the lexer does not read as a decimal float", rune(verb))}
+			}
+			return fmtInfo{shortest: true}
 		case strings.HasPrefix(id, "fmt."):
 			return fmtInfo{bad: id + " with a float verb prints a rounded value (%f keeps 6 decimals)"}
 		}
-		if hf := f.CalleeFunc(call); hf != nil && depth < 3 && len(call.Args) == 1 {
-			c.Analysed(hf)
-			// helper: s := FormatFloat(...); if !strings.ContainsAny(s, ".eE") { s += ".0" }; return s
-			res := fmtInfo{}
-			var sObj types.Object
-			ast.Inspect(hf.Body, func(n ast.Node) bool {
-				if as, ok := n.(*ast.AssignStmt); ok && len(as.Rhs) == 1 && len(as.Lhs) == 1 && as.Tok == token.DEFINE {
-					ci := classify(hf, as.Rhs[0], depth+1)
-					if ci.shortest {
+		hf := up.CalleeFunc(call)
+		if hf == nil || depth >= 3 || len(call.Args) != 1 {
+			return fmtInfo{und: "unrecognised formatter " + id}
+		}
+		c.Analysed(hf)
+		// helper family: s := FormatFloat(...) and then either
+		//   if !strings.ContainsAny(s, ".eE") { s += ".0" }; return s
+		//   if !strings.ContainsAny(s, ".eE") { return s + ".0" }; return s
+		//   if strings.ContainsAny(s, ".eE") { return s }; return s + ".0"
+		res := fmtInfo{}
+		var sObj types.Object
+		ast.Inspect(hf.Body, func(n ast.Node) bool {
+			switch y := n.(type) {
+			case *ast.AssignStmt:
+				if len(y.Rhs) == 1 && len(y.Lhs) == 1 && y.Tok == token.DEFINE {
+					if ci := classify(y.Rhs[0], depth+1); ci.shortest {
 						res.shortest = true
-						sObj = identObj(hf.Info(), as.Lhs[0])
-					}
-				}
-				return true
-			})
-			if !res.shortest {
-				for _, r := range c23ReturnExprs(hf) {
-					if ci := classify(hf, r, depth+1); ci.shortest {
-						res.shortest = true
+						sObj = identObj(info, y.Lhs[0])
 					} else if ci.bad != "" {
 						res.bad = ci.bad
 					}
 				}
-				return res
-			}
-			// forced float spelling
-			ast.Inspect(hf.Body, func(n ast.Node) bool {
-				is, ok := n.(*ast.IfStmt)
-				if !ok {
-					return true
-				}
-				u, ok := core.Unparen(is.Cond).(*ast.UnaryExpr)
-				if !ok || u.Op != token.NOT {
-					return true
-				}
-				cc, ok := core.Unparen(u.X).(*ast.CallExpr)
-				if !ok || hf.CalleeID(cc) != "strings.ContainsAny" || len(cc.Args) != 2 || identObj(hf.Info(), cc.Args[0]) != sObj {
-					return true
-				}
-				tv := hf.Info().Types[cc.Args[1]]
-				if tv.Value == nil {
-					return true
-				}
-				chars := constant.StringVal(tv.Value)
-				if !(strings.Contains(chars, ".") && strings.Contains(chars, "e")) {
-					return true
-				}
-				for _, st := range is.Body.List {
-					if as, ok := st.(*ast.AssignStmt); ok && as.Tok == token.ADD_ASSIGN && identObj(hf.Info(), as.Lhs[0]) == sObj {
-						if tv := hf.Info().Types[as.Rhs[0]]; tv.Value != nil && strings.Contains(constant.StringVal(tv.Value), ".") {
-							res.forced = true
-						}
+			case *ast.ValueSpec:
+				if len(y.Names) == 1 && len(y.Values) == 1 {
+					if ci := classify(y.Values[0], depth+1); ci.shortest {
+						res.shortest = true
+						sObj = info.Defs[y.Names[0]]
+					} else if ci.bad != "" {
+						res.bad = ci.bad
 					}
 				}
-				return true
-			})
-			// the function returns s
-			for _, r := range c23ReturnExprs(hf) {
-				if identObj(hf.Info(), r) != sObj {
-					res.bad = "returns something other than the formatted text"
+			}
+			return true
+		})
+		rets := c23ReturnExprs(hf)
+		if !res.shortest {
+			// a plain wrapper: every return is itself a recognised formatting
+			for _, r := range rets {
+				ci := classify(r, depth+1)
+				switch {
+				case ci.shortest:
+					res.shortest = true
+					res.forced = res.forced || ci.forced
+				case ci.bad != "":
+					res.bad = ci.bad
+				default:
+					res.und = ci.und
 				}
+			}
+			if len(rets) == 0 {
+				res.und = "helper returns nothing recognisable"
 			}
 			return res
 		}
-		return fmtInfo{bad: "unrecognised formatter " + id}
+		isS := func(e ast.Expr) bool { return sObj != nil && identObj(info, core.Unparen(e)) == sObj }
+		dotLit := func(e ast.Expr) bool {
+			sv, ok := x.constStr(e)
+			return ok && strings.HasPrefix(sv, ".") && len(sv) > 1 && strings.Trim(sv[1:], "0123456789") == ""
+		}
+		plusDot := func(e ast.Expr) bool {
+			be, ok := core.Unparen(e).(*ast.BinaryExpr)
+			return ok && be.Op == token.ADD && isS(be.X) && dotLit(be.Y)
+		}
+		// the test `has the text a point or an exponent?`
+		pointTest := func(e ast.Expr) (is, negated bool) {
+			e = x.deref(e)
+			for {
+				u, ok := e.(*ast.UnaryExpr)
+				if !ok || u.Op != token.NOT {
+					break
+				}
+				negated = !negated
+				e = x.deref(u.X)
+			}
+			cc, ok := e.(*ast.CallExpr)
+			if !ok || up.CalleeID(cc) != "strings.ContainsAny" || len(cc.Args) != 2 || !isS(cc.Args[0]) {
+				return false, false
+			}
+			chars, ok := x.constStr(cc.Args[1])
+			if !ok || !(strings.Contains(chars, ".") && strings.Contains(chars, "e")) {
+				return false, false
+			}
+			return true, negated
+		}
+		appended, sawTest := false, false
+		inTest := map[ast.Expr]string{} // return expression -> "bare-branch" (text has a point) / "digits-branch"
+		ast.Inspect(hf.Body, func(n ast.Node) bool {
+			is, ok := n.(*ast.IfStmt)
+			if !ok {
+				return true
+			}
+			isTest, neg := pointTest(is.Cond)
+			if !isTest {
+				return true
+			}
+			sawTest = true
+			mark := func(b ast.Node, branch string) {
+				if b == nil {
+					return
+				}
+				ast.Inspect(b, func(m ast.Node) bool {
+					switch y := m.(type) {
+					case *ast.ReturnStmt:
+						if len(y.Results) == 1 {
+							inTest[y.Results[0]] = branch
+						}
+					case *ast.AssignStmt:
+						if branch == "digits" && len(y.Lhs) == 1 && len(y.Rhs) == 1 && isS(y.Lhs[0]) {
+							if y.Tok == token.ADD_ASSIGN && dotLit(y.Rhs[0]) || y.Tok == token.ASSIGN && plusDot(y.Rhs[0]) {
+								appended = true
+							}
+						}
+					}
+					return true
+				})
+			}
+			thenBranch, elseBranch := "pointed", "digits"
+			if neg {
+				thenBranch, elseBranch = "digits", "pointed"
+			}
+			mark(is.Body, thenBranch)
+			if is.Else != nil {
+				mark(is.Else, elseBranch)
+			}
+			return true
+		})
+		// every return: s (allowed where the text is known to have a point, or anywhere once the point was appended) or s + ".0"
+		okRets, bareUnguarded := len(rets) > 0, false
+		for _, r := range rets {
+			switch {
+			case plusDot(r):
+			case isS(r):
+				switch {
+				case inTest[r] == "pointed":
+				case appended && inTest[r] == "":
+				case !appended && inTest[r] == "" && sawTest:
+					// the fall-through return after `if digits-only { return s + ".0" }` — fine if that branch returns
+					guarded := false
+					for rr, br := range inTest {
+						if br == "digits" && plusDot(rr) {
+							guarded = true
+						}
+					}
+					if !guarded {
+						bareUnguarded = true
+					}
+				default:
+					bareUnguarded = true
+				}
+			default:
+				okRets = false
+			}
+		}
+		anyPlusDot := false
+		for _, r := range rets {
+			if plusDot(r) {
+				anyPlusDot = true
+			}
+		}
+		switch {
+		case !okRets:
+			res.und = "the helper returns something other than the formatted text (with a decimal point appended)"
+		case !bareUnguarded:
+			res.forced = true
+		case !anyPlusDot && !appended:
+			// nothing is ever appended: positively no forced float spelling
+		case sawTest:
+			res.und = "the decimal-point logic of " + hf.Key + " was not recognised"
+		}
+		return res
 	}
-	floatUses := func(cl *ast.CaseClause) []*ast.CallExpr {
+	floatUses := func(cl *c23Clause) []*ast.CallExpr {
 		var out []*ast.CallExpr
-		for _, st := range cl.Body {
+		for _, st := range cl.stmts {
 			ast.Inspect(st, func(n ast.Node) bool {
 				call, ok := n.(*ast.CallExpr)
-				if !ok {
+				if !ok || cl.calls[call] != nil {
 					return true
 				}
 				for _, a := range call.Args {
-					if isFloat(up, a) {
+					if isFloat(a) {
 						out = append(out, call)
 						return false
 					}
@@ -1608,21 +2445,19 @@ func c23Numbers(c *core.Check, up *core.Func, clauses map[string]*ast.CaseClause
 		}
 		calls := floatUses(cl)
 		if len(calls) == 0 {
-			c.Undecided("C23-R4", spec.typ+" float", pos(c, cl), "no call taking a float64 found in the clause")
+			c.Undecided("C23-R4", spec.typ+" float", pos(c, cl.cc), "no call taking a float64 found in the clause")
 			continue
 		}
 		for i, call := range calls {
 			key := fmt.Sprintf("%s float#%d", spec.typ, i+1)
-			ci := classify(up, call, 0)
+			ci := classify(call, 0)
 			switch {
-			case ci.bad != "" && !ci.shortest:
-				if strings.HasPrefix(ci.bad, "unrecognised") || strings.HasPrefix(ci.bad, "not a call") {
-					c.Undecided("C23-R4", key, pos(c, call), ci.bad)
-				} else {
-					c.Fail("C23-R4", key, pos(c, call), "the formatter prints "+spec.what+" with "+ci.bad+": the formatted program has a different number (0.0000001 becomes 0.000000)")
-				}
+			case ci.bad != "":
+				c.Fail("C23-R4", key, pos(c, call), "the formatter prints "+spec.what+" with "+ci.bad+": the formatted program has a different number (0.0000001 becomes 0.000000)")
 			case !ci.shortest:
-				c.Undecided("C23-R4", key, pos(c, call), "float formatting not recognised")
+				c.Undecided("C23-R4", key, pos(c, call), "float formatting not recognised: "+ci.und)
+			case spec.needFloat && !ci.forced && ci.und != "":
+				c.Undecided("C23-R4", key, pos(c, call), ci.und)
 			case spec.needFloat && !ci.forced:
 				c.Fail("C23-R4", key, pos(c, call), "the shortest text of an integral float (1.0) is `1`, which the lexer reads back as an integer literal: the literal changes type when the program is formatted")
 			default:
@@ -1631,18 +2466,63 @@ func c23Numbers(c *core.Check, up *core.Func, clauses map[string]*ast.CaseClause
 		}
 	}
 	if cl := clauses["IntLit"]; cl != nil {
-		okInt := false
-		for _, st := range cl.Body {
+		// decimal: strconv.FormatInt(x, 10), strconv.Itoa, fmt.Sprint*, or a fmt verb %d / %v on the value
+		okInt, wrong, seen := false, "", false
+		isI := func(e ast.Expr) bool { return x.nodeField(cl, e, "I") }
+		for _, st := range cl.stmts {
 			ast.Inspect(st, func(n ast.Node) bool {
-				if call, ok := n.(*ast.CallExpr); ok && up.CalleeID(call) == "strconv.FormatInt" && len(call.Args) == 2 {
+				call, ok := n.(*ast.CallExpr)
+				if !ok {
+					return true
+				}
+				uses := false
+				for _, a := range call.Args {
+					if x.mentions(a, isI, 0) {
+						uses = true
+					}
+				}
+				if !uses {
+					return true
+				}
+				switch id := up.CalleeID(call); {
+				case id == "strconv.FormatInt" && len(call.Args) == 2:
+					seen = true
 					if b, ok := constInt(info, call.Args[1]); ok && b == 10 {
 						okInt = true
+					} else if ok {
+						wrong = fmt.Sprintf("strconv.FormatInt in base %d", b)
+					}
+				case id == "strconv.Itoa", id == "fmt.Sprint", id == "fmt.Sprintln":
+					seen = true
+					okInt = true
+				case (id == "fmt.Sprintf" || id == "fmt.Fprintf") && len(call.Args) >= 2:
+					fa := call.Args[0]
+					if id == "fmt.Fprintf" {
+						fa = call.Args[1]
+					}
+					if f, ok := x.constStr(fa); ok {
+						seen = true
+						verbs := regexp.MustCompile(`%[-+# 0-9.]*([a-zA-Z])`).FindAllStringSubmatch(f, -1)
+						if len(verbs) == 1 && (verbs[0][1] == "d" || verbs[0][1] == "v") {
+							okInt = true
+						} else if len(verbs) == 1 && strings.Contains("xXobBcqUeEfFgG", verbs[0][1]) {
+							wrong = "the fmt verb %" + verbs[0][1]
+						}
 					}
 				}
 				return true
 			})
 		}
-		c.Verdict(okInt, "C23-R4", "IntLit base", pos(c, cl), "base 10", "integer literals are not printed in base 10, the only base the lexer reads")
+		switch {
+		case wrong != "":
+			c.Fail("C23-R4", "IntLit base", pos(c, cl.cc), "integer literals are printed with "+wrong+", not in base 10, the only base the lexer reads")
+		case okInt:
+			c.Ok("C23-R4", "IntLit base", pos(c, cl.cc), "base 10")
+		case seen:
+			c.Undecided("C23-R4", "IntLit base", pos(c, cl.cc), "the formatting of IntLit.I was found but its base was not recognised")
+		default:
+			c.Undecided("C23-R4", "IntLit base", pos(c, cl.cc), "no recognised formatting of IntLit.I in the clause (strconv.FormatInt/Itoa or a fmt verb expected)")
+		}
 	}
 	c.Floor("C23-R4", 3)
 	_ = sort.Strings
